@@ -389,6 +389,7 @@ type c14Fixture struct {
 	root  *c14Node
 	next  int
 	reuse *c14ReuseFx // re-use cases (c14_reuse.go)
+	multi *c14MultiFx // several cursors alive at once (c14_multi.go)
 }
 
 var c14Cur *c14Fixture
@@ -654,6 +655,9 @@ func c14Exec(line string) string {
 	}
 	if strings.HasPrefix(f[0], "R;") {
 		return c14ReuseExec(f)
+	}
+	if strings.HasPrefix(f[0], "M;") {
+		return c14MultiExec(f)
 	}
 	db := c14GetDb()
 	ops := c14ParseOps(f[1])
@@ -1054,5 +1058,6 @@ func c14Gen(tier string, seed uint64, out *bufio.Writer) {
 	}
 	c14GenReuse(tier, r, out)
 	c14GenLong(tier, r, out)
+	c14GenMulti(tier, r, out)
 	c14GenBlocks(tier, out)
 }
